@@ -12,6 +12,8 @@ import time
 import numpy as np
 
 ROOT = os.path.dirname(os.path.dirname(os.path.abspath(__file__)))
+# self-validation runs (scratch copies of the repository) must not overwrite evidence/replays of the unchanged tree
+OUT_ROOT = ROOT if not os.environ.get("VERIF_SELFVAL") else tempfile.mkdtemp(prefix="nessai-verif-selfval-out-", dir="/tmp")
 FINDINGS_FILE = os.path.join(ROOT, "known_findings.jsonl")
 EVIDENCE_SCHEMA = "/root/.vp/EVIDENCE.schema.json"
 
@@ -20,8 +22,9 @@ def assert_repo():
     """Refuse to run unless the nessai that is imported is /repo's working tree."""
     import nessai
 
-    if not os.path.realpath(nessai.__file__).startswith("/repo/"):
-        raise SystemExit(f"nessai imported from {nessai.__file__}, not /repo")
+    repo = os.path.realpath(os.environ.get("VERIF_REPO", "/repo"))
+    if not os.path.realpath(nessai.__file__).startswith(repo + "/"):
+        raise SystemExit(f"nessai imported from {nessai.__file__}, not {repo}")
 
 
 class NPEncoder(json.JSONEncoder):
@@ -137,7 +140,7 @@ class Check:
             self.known_seen[key]["count"] += 1
             return "known"
         h = hashlib.sha256(jdump({"key": key, "case": case}, sort_keys=True).encode()).hexdigest()[:12]
-        rdir = os.path.join(ROOT, "replays", self.pid)
+        rdir = os.path.join(OUT_ROOT, "replays", self.pid)
         os.makedirs(rdir, exist_ok=True)
         path = os.path.join(rdir, f"{h}.json")
         with open(path, "w") as f:
@@ -183,7 +186,7 @@ class Check:
         if len(self.nontrivial) < min_nontrivial:
             broken.append(f"only {len(self.nontrivial)} distinct non-trivial cases")
         if not self.replay_case:
-            os.makedirs(os.path.join(ROOT, "evidence"), exist_ok=True)
+            os.makedirs(os.path.join(OUT_ROOT, "evidence"), exist_ok=True)
             text = jdump(ev, indent=1)
             try:
                 import jsonschema
@@ -195,7 +198,7 @@ class Check:
             except Exception as e:  # an invalid evidence file is a broken check
                 if not self.violations:
                     broken.append(f"evidence does not validate: {str(e)[:200]}")
-            with open(os.path.join(ROOT, "evidence", f"{self.pid}.json"), "w") as f:
+            with open(os.path.join(OUT_ROOT, "evidence", f"{self.pid}.json"), "w") as f:
                 f.write(text + "\n")
         for k, v in sorted(self.known_seen.items()):
             print(f"KNOWN-FINDING: property={self.pid} {k} — {v['what']} (seen {v['count']}x)")
@@ -209,7 +212,7 @@ class Check:
                     continue
                 seen.add(key)
                 print(f"[{self.pid}] witness key={key}: {what}")
-                print(f"VIOLATION property={self.pid} replay={os.path.relpath(path, ROOT)}")
+                print(f"VIOLATION property={self.pid} replay={os.path.relpath(path, OUT_ROOT)}")
             sys.stdout.flush()
             os._exit(1) if False else sys.exit(1)
         if broken:
